@@ -88,6 +88,13 @@ MIPS32 = [
     _t("mark", "ori $10,$zero,{imm}", "340a0000", imm=(2, 2)),
 ]
 
+# Intel-syntax text of the x86-64 templates (same bytes)
+X64_INTEL = {
+    "nop": "nop", "nop2": "xchg ax,ax", "nop3": "nop dword ptr [rax]", "xor": "xor eax,eax",
+    "push": "push rax", "pop": "pop rax", "mark": "mov eax,{imm}", "lea": "lea rax,[rip+{sym}]",
+    "jmp": "jmp {sym}", "je": "je {sym}", "call": "call {sym}", "ijmp": "jmp rax", "icall": "call rax", "ret": "ret",
+}
+
 TABLES = {"x64": X64, "ia32": IA32, "arm64": ARM64, "mips32": MIPS32}
 TRIPLES = {
     ("x64", "elf"): "x86_64-pc-linux",
@@ -124,8 +131,8 @@ def encode(isa, tpl, imm=0):
     return bytes(b)
 
 
-def render(isa, tpl, sym=None, imm=0):
-    text = tpl.text
+def render(isa, tpl, sym=None, imm=0, intel=False):
+    text = X64_INTEL[tpl.name] if intel else tpl.text
     if "{sym}" in text:
         text = text.replace("{sym}", sym)
     if "{imm}" in text:
@@ -202,9 +209,25 @@ def calibrate():
             insns = list(md.disasm(data, 0))
             if len(insns) != 1 or insns[0].size != len(data):
                 raise HarnessError(f"calibration: {isa} {tpl.name} capstone disagrees")
+            if isa == "x64" and tpl.name in X64_INTEL:
+                s2 = S()
+                a2 = mcasm.Assembler(TRIPLES[(isa, fmt)])
+                a2.x86_syntax = mcasm.X86Syntax.INTEL
+                a2.assemble(s2, render(isa, tpl, "undefsym", imm, intel=True) + "\n")
+                if len(s2.out) != 1 or s2.out[0][0] != want:
+                    raise HarnessError(f"calibration: x64 intel {tpl.name}: {s2.out} vs {want.hex()}")
             groups = set(insns[0].groups)
             is_transfer = bool(groups & {capstone.CS_GRP_JUMP, capstone.CS_GRP_CALL, capstone.CS_GRP_RET,
                                          capstone.CS_GRP_BRANCH_RELATIVE})
             if isa != "mips32" and is_transfer != (tpl.kind in TRANSFER):
                 raise HarnessError(f"calibration: {isa} {tpl.name} kind {tpl.kind} vs capstone groups {groups}")
     _calibrated = True
+
+
+def temp_prefix(isa, fmt):
+    """private (temporary) label prefix of the target, as LLVM defines it"""
+    if isa == "mips32":
+        return "$"
+    if (isa, fmt) == ("ia32", "pe"):
+        return "L"
+    return ".L"
